@@ -168,7 +168,7 @@ def discharge(obligations, timeout_ms=20000, workers=None, use_cvc5=True):
             from .ring import prove_identity
             t0 = _t.time()
             try:
-                ok = prove_identity([h for h, k in zip(ob.hyps, ob.hyp_kinds) if k == 'def'], ob.goal)
+                ok = prove_identity([h for h, k in zip(ob.hyps, ob.hyp_kinds) if k == 'def' or ob.meta.get('ring') == 'all'], ob.goal)
             except Exception:
                 ok = False
             if ok:
